@@ -44,8 +44,10 @@ def main():
             for p in available:
                 try:
                     run, mod = check.analyse(p, "quick", tmp, None, None)
+                    for e in run.errors:
+                        errs.append("%s:ANALYSIS-ERROR(%s)" % (p, e[:70]))
                     vac = run.vacuous()
-                    if vac:
+                    if vac and not run.violations():
                         errs.append("%s:ANALYSIS-ERROR(%s)" % (p, vac[0][:60]))
                     for o in run.violations():
                         hits.append((p, o.rule, o.construct, o.detail))
